@@ -97,6 +97,16 @@ func optTuples() []optTuple {
 		}, func() []backend.VerifierOption {
 			return []backend.VerifierOption{backend.WithVerifierHashToFieldFunction(sha256.New())}
 		}},
+		{"hash-to-field=sha512(64-byte digest)", func() []backend.ProverOption {
+			return []backend.ProverOption{backend.WithProverHashToFieldFunction(sha512.New())}
+		}, func() []backend.VerifierOption {
+			return []backend.VerifierOption{backend.WithVerifierHashToFieldFunction(sha512.New())}
+		}},
+		{"hash-to-field=sha512/224(28-byte digest)", func() []backend.ProverOption {
+			return []backend.ProverOption{backend.WithProverHashToFieldFunction(sha512.New512_224())}
+		}, func() []backend.VerifierOption {
+			return []backend.VerifierOption{backend.WithVerifierHashToFieldFunction(sha512.New512_224())}
+		}},
 		{"challenge=sha512", func() []backend.ProverOption {
 			return []backend.ProverOption{backend.WithProverChallengeHashFunction(sha512.New())}
 		}, func() []backend.VerifierOption {
